@@ -81,7 +81,9 @@ func histories(start, depth int) [][]op {
 
 // "appending-call": the index is the result of a call that first appends to the same array and
 // returns the position it created (the array has to be measured after the index is evaluated)
-var idxForms = []string{"literal", "const", "let", "mutated-let", "func-result", "appending-call"}
+// "sibling-lit": the index variable holds a call's result; the access sits in the else branch of
+// an `if` whose (not executed) then branch assigns the variable a literal far outside the array
+var idxForms = []string{"literal", "const", "let", "mutated-let", "func-result", "appending-call", "sibling-lit"}
 
 type elemKind struct {
 	name string
@@ -148,9 +150,15 @@ func build(start int, h []op, form string, ek elemKind, sfx string) *fl.Program 
 				p.Funcs = append(p.Funcs, &fl.Func{Name: fn, Params: []fl.Param{{"a", fl.TRef{Elem: fl.TDyn{Elem: t}, Mut: true}}}, Ret: fl.I32, Body: []fl.Stmt{
 					&fl.Append{Arr: fl.V("a"), Val: ek.val(t, next), Ref: true}, &fl.Return{X: fl.L(fl.I32, shift)}}})
 				ix = fl.C(fn, &fl.Borrow{X: d, Mut: true})
+			case "sibling-lit":
+				fn := fmt.Sprintf("ix%d%s", step, sfx)
+				p.Funcs = append(p.Funcs, &fl.Func{Name: fn, Ret: fl.I32, Body: []fl.Stmt{&fl.Return{X: fl.L(fl.I32, o.idx)}}})
+				pre = []fl.Stmt{&fl.Let{Name: name, T: fl.I32, Init: fl.C(fn)}}
+				ix = fl.V(name)
 			}
 		}
 		body = append(body, pre...)
+		accessFrom := len(body)
 		switch o.kind {
 		case "append":
 			next++
@@ -187,6 +195,10 @@ func build(start int, h []op, form string, ek elemKind, sfx string) *fl.Program 
 				p.Funcs = append(p.Funcs, &fl.Func{Name: "get" + sfx, Params: []fl.Param{{"a", fl.TDyn{Elem: t}}, {"i", fl.I32}}, Body: []fl.Stmt{fl.P(ek.show(fl.Ix(fl.V("a"), fl.V("i"))))}})
 			}
 			body = append(body, &fl.ExprStmt{X: fl.C("get"+sfx, d, ix)})
+		}
+		if v, ok := ix.(*fl.Var); ok && form == "sibling-lit" {
+			acc := append([]fl.Stmt{}, body[accessFrom:]...)
+			body = append(body[:accessFrom], &fl.If{Cond: fl.C("yes"+sfx, fl.L(fl.I32, 0)), Then: []fl.Stmt{&fl.Assign{LHS: v, RHS: fl.L(fl.I32, 77)}, fl.P(v)}, Else: acc})
 		}
 	}
 	// final dump: length, every element, guards
@@ -241,7 +253,7 @@ func Run(c *vl.Ctx) {
 					if quick && (form == "const" || form == "mutated-let") {
 						continue // quick: literal, let, func-result, appending-call; thorough: all six
 					}
-					if form == "appending-call" && (ek.name != "i32" || len(h) > 2) {
+					if (form == "appending-call" || form == "sibling-lit") && (ek.name != "i32" || len(h) > 2) {
 						continue
 					}
 					hasIdx := false
